@@ -431,6 +431,10 @@ public:
             nev_adj = nev_adjusted(nconv);
             restart(nev_adj, selection);
         }
+        // If the loop ran out of iterations, the convergence flags still describe the
+        // Ritz pairs before the last restart (or an earlier run): refresh them
+        if (i >= maxit)
+            nconv = num_converged(tol);
         // Sorting results
         sort_ritzpair(sorting);
 
